@@ -308,6 +308,9 @@ func collectContributions(c *core.Ctx, rule string, fn *ssa.Function) ([]contrib
 	x.Hooks.Call = func(x *absint.Exec, s *absint.State, site ssa.CallInstruction, callee *ssa.Function, fnv absint.Value, args []absint.Value) (absint.Value, bool) {
 		pos := c.P.Pos(site.Pos())
 		switch {
+		case callee == nil && !site.Common().IsInvoke() && len(args) >= 1 && len(args) <= 2 && site.Value() != nil && isStringType(site.Value().Type()):
+			// a formatter held in a function value (a colouring closure kept in a field): what it renders is its operand
+			return absint.NewTerm("rendered", args...), true
 		case isMethod(callee, core.LibPath, "Accumulator", "Add") && len(args) == 3:
 			if relayOf(s, args[1], args[2]) {
 				relays = append(relays, relay{"Accumulator.Add", gateOf(s), pos})
@@ -726,4 +729,9 @@ func ruleReporterSelection(c *core.Ctx, rule string, only func(*ssa.Function) bo
 	if n == 0 {
 		c.Note(rule + ": no function selects among reporters of which one filters by element")
 	}
+}
+
+func isStringType(t types.Type) bool {
+	b, ok := t.Underlying().(*types.Basic)
+	return ok && b.Info()&types.IsString != 0
 }
